@@ -351,12 +351,23 @@ class Exec:
             if is_expr(r): return st.new_cell(r), ()      # &str / &[u8] are modelled by value
             if r is None or r[0] != 'ref': raise Unsupported('deref of non-ref ' + str(r)[:80])
             return r[1], r[2]
+        if p[0] == 'index':
+            return st.new_cell(self.read(st, fr, p)), ()      # read-only view of one element
         if p[0] == 'field':
             c, path = self.lval(st, fr, p[1]); return c, path + (('f', p[2]),)
         if p[0] == 'downcast':
             c, path = self.lval(st, fr, p[1]); return c, path + (('dc', p[2]),)
         raise Unsupported('place kind ' + p[0])
     def read(self, st, fr, p):
+        if p[0] == 'index':
+            base = self.read(st, fr, p[1]); i = self.read(st, fr, ('local', p[2]))
+            while isinstance(base, tuple) and base[0] == 'ref': base = get_path(st.store[base[1]], base[2])
+            while isinstance(base, tuple) and base[0] == 'adt' and len(base[3]) >= 1: base = base[3][-1]   # newtype around a byte array
+            if isinstance(base, tuple) and base[0] == 'array':
+                if not is_int_value(i): raise Unsupported('symbolic index into an aggregate array')
+                return base[1][i.as_long()]
+            if is_expr(base) and is_seq(base) and not is_string(base): return BV2Int(base[i])     # u8 element as an integer (bounds: MIR asserts)
+            raise Unsupported('index into ' + str(base)[:60])
         c, path = self.lval(st, fr, p); return get_path(st.store[c], path)
     def write(self, st, fr, p, v):
         c, path = self.lval(st, fr, p); st.store[c] = set_path(st.store[c], path, v)
